@@ -1,22 +1,44 @@
 """Drive rig's MemoryIO / SlicedMemoryIO on JSON-described histories (runs under /venv/bin/python,
 PYTHONPATH=/repo).  The machine controller is a recording fake backed by a byte memory: it logs every
-read/write/free it is asked for (address, length) and serves reads from the bytes last written."""
+read/write/free it is asked for (address, length) and serves reads from the bytes last written.  It can
+be told to raise TransportError during the next transfer (logged as an attempt; nothing is transferred).
+
+Operations beyond the plain methods: "fread"/"fwrite" = read/write during which the controller raises (if
+the call gets as far as a transfer); "sread"/"swrite" = read/write with TruncationWarning turned into an
+exception (warnings filter "error"); "enter"/"exit" = a genuine `with view as g:` statement entered at
+"enter" and left at "exit", normally (None) or by an exception raised in its body ("body": ValueError,
+"truncation": a TruncationWarning, "prev": the exception the previous failing operation raised)."""
+import sys
 import warnings
 
 from rig.machine_control.machine_controller import MemoryIO, TruncationWarning
+
+
+class TransportError(Exception):
+    pass
 
 
 class FakeController(object):
     def __init__(self, lo, data):
         self.mem = {lo + i: b for i, b in enumerate(data)}
         self.log = []
+        self.attempts = []
+        self.fail_next = False
 
     def read(self, address, length, x, y, p=0):
+        if self.fail_next:
+            self.fail_next = False
+            self.attempts.append(["r", address, length])
+            raise TransportError("timeout, nothing was read")
         self.log.append(["r", address, length])
         return bytes(bytearray(self.mem.get(address + i, 0) for i in range(length)))
 
     def write(self, address, data, x, y, p=0):
         data = bytes(data)
+        if self.fail_next:
+            self.fail_next = False
+            self.attempts.append(["w", address, list(bytearray(data))])
+            raise TransportError("timeout, nothing was written")
         self.log.append(["w", address, list(bytearray(data))])
         for i, b in enumerate(bytearray(data)):
             self.mem[address + i] = b
@@ -37,12 +59,40 @@ def value(r):
     return ["other", "value:" + type(r).__name__]
 
 
+def block(view):
+    """A real with-statement on `view`, held open across operations: next() enters it, send(None) leaves
+    it normally, throw(exc) raises exc inside its body."""
+    with view as g:
+        yield g
+
+
+def leave(gen, exc):
+    """Leave the with-statement; -> None if it was left as asked (normally, or with exc propagating),
+    otherwise the exception that came out instead (e.g. OSError from close())."""
+    try:
+        if exc is None:
+            gen.send(None)
+        else:
+            gen.throw(exc)
+    except StopIteration:
+        return None
+    except BaseException as e:      # noqa
+        if e is exc:
+            return None
+        raise
+    return None
+
+
 def run_case(c):
     mc = FakeController(c["lo"], c["mem"])
     views = [MemoryIO(mc, 1, 2, c["start"], c["end"])]
+    blocks = {}                         # view number -> stack of open with-statements
+    last_exc = None
     out = []
     for o in c["ops"]:
         mc.log = []
+        mc.attempts = []
+        mc.fail_next = False
         view = None
         made = False
         with warnings.catch_warnings(record=True) as w:
@@ -53,6 +103,12 @@ def run_case(c):
                 else:
                     view = views[o[0]]
                     kind = o[1]
+                    if kind in ("fread", "fwrite"):
+                        mc.fail_next = True
+                        kind = kind[1:]
+                    elif kind in ("sread", "swrite"):
+                        warnings.simplefilter("error", TruncationWarning)
+                        kind = kind[1:]
                     if view is None:
                         res = ["noview"]
                     elif kind == "seek":
@@ -80,19 +136,49 @@ def run_case(c):
                         res = value(view.flush())
                     elif kind == "close":
                         res = value(view.close())
+                    elif kind == "enter":
+                        gen = block(view)
+                        g = next(gen)
+                        blocks.setdefault(o[0], []).append(gen)
+                        res = ["none"] if g is view else ["other", "enter-returned-another-object"]
+                    elif kind == "exit":
+                        exc = None
+                        if o[2] == "body":
+                            exc = ValueError("raised in the body of the with block")
+                        elif o[2] == "truncation":
+                            exc = TruncationWarning("raised in the body of the with block")
+                        elif o[2] == "prev":
+                            exc = last_exc if last_exc is not None else TransportError("earlier failure")
+                        if blocks.get(o[0]):
+                            leave(blocks[o[0]].pop(), exc)
+                            res = ["none"]
+                        else:                                     # no block open: the protocol by hand
+                            r = view.__exit__(*((None, None, None) if exc is None
+                                                else (type(exc), exc, exc.__traceback__)))
+                            res = ["none"] if not r else ["other", "exit-swallows-the-exception"]
                     else:
                         res = ["other", "unknown-op"]
-            except OSError:
+            except TransportError as e:
+                last_exc = e
+                res = ["err", 2]
+            except TruncationWarning as e:
+                last_exc = e
+                res = ["err", 3]
+            except OSError as e:
+                last_exc = e
                 res = ["err", 0]
-            except ValueError:
+            except ValueError as e:
+                last_exc = e
                 res = ["err", 1]
             except Exception as e:          # noqa
+                last_exc = e
                 res = ["other", type(e).__name__]
             if made:
                 views.append(None)          # the slice that was to create this view failed
+        mc.fail_next = False
         nwarn = sum(1 for x in w if issubclass(x.category, TruncationWarning))
-        calls = mc.log
-        mc.log = []
+        calls, attempts = mc.log, mc.attempts
+        mc.log, mc.attempts = [], []
         probe = None
         if view is not None:
             try:
@@ -101,7 +187,7 @@ def run_case(c):
                     probe = view.tell()
             except Exception:               # noqa
                 probe = None
-        out.append([res, nwarn, calls, probe])
+        out.append([res, nwarn, calls, probe, attempts])
     final = [mc.mem.get(c["lo"] + i, 0) for i in range(len(c["mem"]))]
     stray = sorted(a for a in mc.mem if not (c["lo"] <= a < c["lo"] + len(c["mem"])))
     return ["ok", out, final, stray]
